@@ -97,6 +97,11 @@ func (c *Collection) StartDCPFeed(
 	}
 	feed.events.init()
 
+	// No mutation may commit and post its event between the backfill query and the registration
+	// for live events, or the feed would see it in neither.
+	c.bucket.postMutex.Lock()
+	defer c.bucket.postMutex.Unlock()
+
 	if args.Backfill != sgbucket.FeedNoBackfill {
 		startCas := args.Backfill
 		if args.Backfill == sgbucket.FeedResume {
@@ -157,7 +162,6 @@ func (c *Collection) postNewEvent(e *event) {
 	feedEvent := e.asFeedEvent(c.GetCollectionID())
 
 	c.postEvent(feedEvent)
-	c.bucket.expManager.scheduleExpirationAtOrBefore(e.exp)
 
 	/*
 		// Tell collections of other buckets on the same db file to post the event too:
